@@ -33,8 +33,8 @@ def passed_names(xml):
     return out
 
 
-def verify(pid, x):
-    src = "/tmp/wt/%s/out" % pid
+def verify(pid, x, src=None, name=None):
+    src = src or "/tmp/wt/%s/out" % pid
     patch, demo, meta = ("%s/%s%s.%s" % (src, a, x, b) for a, b in (("patch", "diff"), ("demo", "py"), ("meta", "json")))
     if not (os.path.exists(patch) and os.path.exists(demo)):
         return {"ok": False, "why": "files missing"}
@@ -66,7 +66,7 @@ def verify(pid, x):
         ok = rc0 == 0 and rc1 != 0 and not missing
         rec["ok"] = ok
         if ok:
-            dst = os.path.join(VERIF, "seeded", "%s-%s" % (pid, x))
+            dst = os.path.join(VERIF, "seeded", "%s-%s" % (name or pid, x))
             os.makedirs(dst, exist_ok=True)
             shutil.copy(patch, dst + "/patch.diff")
             shutil.copy(demo, dst + "/demo.py")
@@ -83,6 +83,12 @@ def verify(pid, x):
 
 
 if __name__ == "__main__":
+    # round 1:  verify_seed.py C05 [A B]        round 2:  verify_seed.py C05 --round2 <worktree-name> [A B]
     pid = sys.argv[1]
-    for x in (sys.argv[2:] or ["A", "B"]):
-        print(json.dumps(verify(pid, x)))
+    if len(sys.argv) > 2 and sys.argv[2] == "--round2":
+        wt = sys.argv[3]
+        for x in (sys.argv[4:] or ["A", "B"]):
+            print(json.dumps(verify(pid, x, src="/tmp/wt2/%s/out" % wt, name=pid + "r2" + wt[3:])))
+    else:
+        for x in (sys.argv[2:] or ["A", "B"]):
+            print(json.dumps(verify(pid, x)))
